@@ -4,6 +4,7 @@ package vm
 
 import (
 	"context"
+	"time"
 
 	"github.com/risor-io/risor/builtins"
 	"github.com/risor-io/risor/compiler"
@@ -47,8 +48,14 @@ func runConcurrent(src string, env *scriptEnv) (*scriptRun, []object.Object) {
 	}
 	r.stage = "run"
 	r.machine = New(code, WithGlobals(globals), WithConcurrency())
-	if err := r.machine.Run(ctx); err != nil {
-		r.err = err
+	var runErr error
+	// every program of this family finishes on its own: a run that blocks for
+	// ever (deadlock) or spins is a failure
+	verifrt.RunWithDeadline("run-terminates", 3000000, 3*time.Second, func() {
+		runErr = r.machine.Run(ctx)
+	})
+	if runErr != nil {
+		r.err = runErr
 		return r, log
 	}
 	r.stage = "ok"
